@@ -17,10 +17,10 @@ setup() {
 }
 run() {
   patch=$1; label=$2; shift 2; ids=${*:-$ALL}
-  git -C $S/repo checkout -q -- .; git -C $S/repo clean -fdq
-  if ! git -C $S/repo apply "$patch" 2>/dev/null; then echo "{\"label\":\"$label\",\"error\":\"patch does not apply\"}" | tee -a $S/results.jsonl; return; fi
+  git -C $S/repo reset -q --hard; git -C $S/repo clean -fdq
+  if ! git -C $S/repo apply "$patch" 2>/dev/null && ! git -C $S/repo apply --3way "$patch" >/dev/null 2>&1; then echo "{\"label\":\"$label\",\"error\":\"patch does not apply\"}" | tee -a $S/results.jsonl; return; fi
   if ! (cd $S/harness && cargo build --release --offline --bin vcheck >$S/build.log 2>&1); then
-    echo "{\"label\":\"$label\",\"error\":\"build failed\"}" | tee -a $S/results.jsonl; git -C $S/repo checkout -q -- .; return; fi
+    echo "{\"label\":\"$label\",\"error\":\"build failed\"}" | tee -a $S/results.jsonl; git -C $S/repo reset -q --hard; return; fi
   res=""
   for id in $ids; do
     out=$(VERIF_ROOT=$S/root $S/target/release/vcheck $id --tier quick 2>&1); rc=$?
@@ -28,7 +28,7 @@ run() {
     inc=$(echo "$out" | grep -E "^INCONCLUSIVE" | head -1 | cut -c1-200 | tr '"' "'")
     res="$res\"$id\":{\"exit\":$rc,\"sigs\":\"$sig\",\"inconclusive\":\"$inc\"},"
   done
-  git -C $S/repo checkout -q -- .; git -C $S/repo clean -fdq
+  git -C $S/repo reset -q --hard; git -C $S/repo clean -fdq
   echo "{\"label\":\"$label\",\"results\":{${res%,}}}" >> $S/results.jsonl
   echo "== $label: $(echo "{${res%,}}" | python3 -c "import json,sys; d=json.load(sys.stdin); print(' '.join(f'{k}={v[\"exit\"]}' for k,v in d.items() if v['exit']!=0) or 'all 0')")"
 }
